@@ -484,6 +484,13 @@ def sym_entry(e, tname):
 
 def stimulus_table(rep, repo, rid='C03.stimulus'):
     """CPU s_to_c and GPU wave_assign_gpu: waveform written for each (initial, final) in {0,1}^2."""
+    try:
+        from checks import c03_eval
+        from kvstatic.core import cached_rules
+        if cached_rules(rep, repo, 'c03.stimulus', ['wave_sim', '__init__'], lambda r: c03_eval.evaluate(r, repo, rid), extra=rid):
+            return None
+    except ModelError as e:
+        rep.note(f'{rid}: s_to_c / wave_assign_gpu are outside the evaluated subset ({e}); the structural rule decides')
     rep.rule(rid, 'stimulus waveform per (initial, final): first entry TMIN iff initial = 1; number of transition entries before the first TMAX has parity initial xor final; entry 2 is TMAX')
     mod = repo.mod('wave_sim')
     tables = {}
